@@ -286,6 +286,13 @@ def replay_coll3(groups):
                 got = pts_of(polys.intersect(g.Line(P(a), P(b))))
                 exp = [np.array(p) for r in recs for p in r["r"]["r"]["pts"]]
                 cmp("PolygonCollection.intersect(Line)/3D", {"polys": [r["r"]["poly"] for r in recs], "a": a, "b": b}, got, exp)
+                # the same collection after every one of its properties (area, edges, vertices, ...) has been read
+                from ..moved import warm
+                got_w = pts_of(warm(polys).intersect(g.Line(P(a), P(b))))
+                cmp("PolygonCollection.intersect(Line)/3D/after-reading-its-properties", {"polys": [r["r"]["poly"] for r in recs], "a": a, "b": b}, got_w, exp)
+                got_s = pts_of(polys.intersect(g.Segment(P(a), P([2 * y - x for x, y in zip(a, b)]))))
+                exp_s = [e for e in exp if not np.isclose(e[-1], 0) and -1e-9 <= np.dot(np.array(e[:-1]) / e[-1] - np.array(a), np.array(b) - np.array(a)) / np.dot(np.array(b) - np.array(a), np.array(b) - np.array(a)) <= 2 + 1e-9]
+                cmp("PolygonCollection.intersect(Segment)/3D/after-reading-its-properties", {"polys": [r["r"]["poly"] for r in recs], "a": a, "b": [2 * y - x for x, y in zip(a, b)]}, got_s, exp_s)
                 # the same polygons as a collection with two axes: [[P1, P1], [P2, P2]]
                 one = np.array([[list(v) + [1] for v in r["r"]["poly"]] for r in recs[:2]])
                 grid = g.PolygonCollection(np.stack([np.stack([one[0], one[0]]), np.stack([one[1], one[1]])]))
